@@ -95,6 +95,10 @@ func c15() {
 		policy *string // nil: file missing
 		pre    []string
 		args   func(policyPath, casePath string) []string
+		// decoy: a permissive seccomp.yml (the default name) lies in the working directory
+		decoy bool
+		// unpriv: the directory is made writable for everybody (the command runs as nobody and leaves the marker there)
+		unpriv bool
 	}
 	str := func(s string) *string { return &s }
 	std := func(extra ...string) func(string, string) []string {
@@ -191,6 +195,17 @@ func c15() {
 	faults = append(faults,
 		fault{kind: "dotted-keys-only", policy: str("seccomp.default_action: allow\nseccomp.syscalls:\n- action: errno\n  names:\n  - getppid\n"), args: std()},
 		fault{kind: "groups-under-a-dotted-key", policy: str("seccomp:\n  default_action: allow\nseccomp.syscalls:\n- action: errno\n  names:\n  - getppid\n"), args: std()})
+	// an empty policy name is no file (a permissive file under the default name lies in the working directory)
+	for k, form := range [][]string{{"-policy", ""}, {"-policy="}, {"--policy="}, {"--policy", ""}} {
+		form := form
+		faults = append(faults, fault{kind: fmt.Sprintf("empty-policy-name-%d", k), policy: str(validYAML), decoy: true,
+			args: func(pp, cp string) []string { return append(append([]string{}, form...), target, "probe", cp) }})
+	}
+	// an unprivileged caller that does not ask for no_new_privs: the kernel refuses the filter, the target must not run
+	nobody := []string{"/usr/bin/setpriv", "--reuid=65534", "--regid=65534", "--clear-groups"}
+	faults = append(faults,
+		fault{kind: "unprivileged-without-no-new-privs", policy: str(validYAML), pre: nobody, unpriv: true, args: std("-no-new-privs=false")},
+		fault{kind: "unprivileged-without-no-new-privs-padded", policy: str(validYAML + pad(66000)), pre: nobody, unpriv: true, args: std("-no-new-privs=false")})
 	// many defects at once (the status of a process keeps only eight bits of whatever is derived from their number)
 	for _, n := range []int{2, 3, 100, 255, 256, 257, 511, 512, 513, 1024, 65536} {
 		var b strings.Builder
@@ -232,8 +247,15 @@ func c15() {
 				os.WriteFile(pp, []byte(*f.policy), 0o644)
 			}
 		}
+		if f.decoy {
+			os.WriteFile(filepath.Join(dir, "seccomp.yml"), []byte("seccomp:\n  default_action: allow\n  syscalls:\n  - action: allow\n    names:\n    - getppid\n"), 0o644)
+		}
+		if f.unpriv {
+			os.Chmod(dir, 0o777)
+		}
 		cp := filepath.Join(dir, "case.json")
 		writeJSON(cp, probeCase)
+		os.Chmod(cp, 0o644)
 		marker := filepath.Join(dir, "marker")
 		res, err := runSandbox(dir, f.pre, sandbox, f.args(pp, cp), marker)
 		if err != nil || res.timedOut {
@@ -297,6 +319,24 @@ func c15() {
 		if merr == nil || err == nil {
 			run.Violation("missing-policy-found-elsewhere:"+variant, fmt.Sprintf("the policy file named by %v does not exist in the working directory; files of the same name next to the executable, in $HOME, in the parent and in a sub-directory must not be used: target started=%v exit error=%v output=%s", args[:min(2, len(args))], merr == nil, err, tail(string(out), 200)),
 				map[string]any{"check": "C15", "variant": variant, "args": args})
+		}
+		os.RemoveAll(dir)
+	}
+	// control for the unprivileged kinds: the same caller with no_new_privs runs the target under the filter
+	{
+		dir := filepath.Join(root, "unpriv-control")
+		os.MkdirAll(dir, 0o755)
+		os.Chmod(dir, 0o777)
+		pp := filepath.Join(dir, "policy.yml")
+		os.WriteFile(pp, []byte(validYAML), 0o644)
+		cp := filepath.Join(dir, "case.json")
+		writeJSON(cp, probeCase)
+		os.Chmod(cp, 0o644)
+		res, err := runSandbox(dir, []string{"/usr/bin/setpriv", "--reuid=65534", "--regid=65534", "--clear-groups"}, sandbox, []string{"-policy", pp, "-no-new-privs=true", target, "probe", cp}, filepath.Join(dir, "marker"))
+		if err != nil || res.timedOut || res.exit != 0 || !res.marker {
+			run.Inconclusive(fmt.Sprintf("control: an unprivileged sandbox run with -no-new-privs=true did not run its target (%v, %+v): the unprivileged fault kinds prove nothing", err, res))
+		} else {
+			run.Count("unprivileged_control_runs", 1)
 		}
 		os.RemoveAll(dir)
 	}
